@@ -233,3 +233,13 @@ REG.contract('C07', O, 'OptionStore.ensure_and_validate_key', variant='real', pa
                       "implies(not (self.is_cross and (attr_name(key) in ('pkg_config_path', 'cmake_prefix_path') or obj_is_compopt(key))), result is obj_as_host(key))"],
              result=Obj, opaque=PMQ, opaque_attrs=PMA, floor=2,
              note='a build-machine key keeps its machine only in a cross build and only for a per-machine option; every other key is folded onto the host machine (as_host). The merge contracts use the trusted identity form of this function: they are stated for host-machine keys')
+
+# ---- which values are treated as paths: directory options only, and never the empty string
+import pathlib as _pl
+SanS = Struct('OptionStore', 'mesonbuild.options:OptionStore', pure_path_class=Const(_pl.PurePosixPath))
+REG.contract('C07', O, 'OptionStore.sanitize_dir_option_value', params={'self': SanS, 'prefix': Str, 'option': Obj, 'value': Str},
+             ensures=["implies(value == '' or not attr_name(option).endswith('dir'), result == value)"],
+             raises={'MesonException': "attr_name(option).endswith('dir') and value != ''"}, exact_raises=False,
+             opaque_attrs={'name': Str, 'parts': Obj}, opaque={'is_absolute': ([], Bool), 'relative_to': ([Str], Obj), 'as_posix': ([], Str)},
+             opaque_classes=['PurePosixPath'], floor=2,
+             note='a value given for a builtin option is stored as given unless the option is a DIRECTORY option (name ending in dir) and the value is not empty: only then is it read as a path (normalised, made relative to the prefix); the empty string stays empty')
